@@ -226,6 +226,28 @@ pub fn run(args: &[String]) {
         }
         emit(&mut w, &toks.concat());
     }
+    // (a') every pair / triple of operator characters that can combine into a composite operator, written
+    //      adjacent, with a block comment, with a blank, with a comment and a blank, and with a line break between
+    //      them (jointness must mean raw adjacency: C02's builder and the parser count raw tokens alike)
+    if shard == 0 && arg_u64(args, "--joints", 0) > 0 {
+        let ops = ["-", "=", ">", "<", ":", "!", ".", "*", "/", "&", "%", "^", "+", "|"];
+        let seps = ["", "/*c*/", " ", "/*c*/ ", "\n", "/**/ /**/"];
+        for a in ops {
+            for b in ops {
+                for sep in seps {
+                    emit(&mut w, &format!("int x = p {a}{sep}{b} q;\nint y = 3;\n"));
+                    emit(&mut w, &format!("p {a}{sep}{b}{sep}= q; // tail"));
+                }
+            }
+        }
+        for (a, b, c) in [(".", ".", "."), (".", ".", "="), ("<", "<", "="), (">", ">", "=")] {
+            for s1 in seps {
+                for s2 in seps {
+                    emit(&mut w, &format!("x = p {a}{s1}{b}{s2}{c} q;\nh q;"));
+                }
+            }
+        }
+    }
     // (b) random lexeme sequences
     for _ in 0..arg_u64(args, "--lexemes", 0) {
         let n = 1 + rng.below(10) as usize;
